@@ -11,6 +11,7 @@ import (
 	"fmt"
 	"os"
 	"strconv"
+	"sync/atomic"
 )
 
 type assumeFailed struct{ msg string }
@@ -168,3 +169,9 @@ func B2U(b bool) uint64 {
 	}
 	return 0
 }
+
+// InterfereMonotonicU64 declares, for the thread-modular obligations, that other threads may
+// change *p at any time but only ever increase it (the rely), and that this thread must only
+// ever strictly increase it (the guarantee, checked by the executor at every write/CAS).
+// Natively a no-op: interference-dependent counterexamples are not natively replayable.
+func InterfereMonotonicU64(p *atomic.Uint64) {}
